@@ -1,0 +1,9 @@
+//go:build verif
+
+package builder
+
+// VerifHashBitsSlice exposes the builder-side hash slicing to the
+// verification harness.
+func VerifHashBitsSlice(b []byte, offset, width int) (int, error) {
+	return hashBits(b).Slice(offset, width)
+}
